@@ -485,7 +485,7 @@ func (e *Eng) unop(fr *Frame, st *State, in *ssa.UnOp) Val {
 			fr.taint[in] = true
 		}
 		if !fr.pure {
-			e.assume(st, wf(in.Type(), v))
+			e.assume(st, e.wf(in.Type(), v))
 			e.assumeValAllocated(fr, st, in.Type(), v)
 		}
 		return v
@@ -612,6 +612,8 @@ func (e *Eng) typeTag(t types.Type) T {
 	if !ok {
 		n = len(e.tags) + 1
 		e.tags[k] = n
+		e.tagTypes[k] = t
+		e.implFacts()
 	}
 	return bvLit(32, uint64(n))
 }
@@ -670,8 +672,11 @@ func (e *Eng) typeAssert(fr *Frame, st *State, in *ssa.TypeAssert) Val {
 			ok = "true"
 		} else {
 			// "dynamic type implements I" is a function of the type tag only
-			f := e.q.DeclareFun("impl|"+typeName(at), []string{sTag}, sBool)
+			f := e.implFun(at)
 			ok = tAnd(tNot(tEq(x.Ty, bvLit(32, 0))), app(f, x.Ty))
+			if si, isI := under(in.X.Type()).(*types.Interface); isI && si.NumMethods() > 0 && types.Implements(si, under(at).(*types.Interface)) {
+				ok = tNot(tEq(x.Ty, bvLit(32, 0)))
+			}
 			if under(at).(*types.Interface).NumMethods() == 0 {
 				ok = tNot(tEq(x.Ty, bvLit(32, 0)))
 			}
@@ -907,7 +912,7 @@ func (e *Eng) lookup(fr *Frame, st *State, in *ssa.Lookup) Val {
 	v, present := e.mapLoad(hs, mt, m.Ref, key)
 	v = iteVal(mt.Elem(), present, v, zeroVal(mt.Elem()))
 	if !fr.pure {
-		e.assume(st, wf(mt.Elem(), v))
+		e.assume(st, e.wf(mt.Elem(), v))
 		e.assumeValAllocated(fr, st, mt.Elem(), v)
 	}
 	if in.CommaOk {
@@ -981,8 +986,8 @@ func (e *Eng) next(fr *Frame, st *State, in *ssa.Next) Val {
 	if v == nil {
 		v = e.freshVal(vt, "next_val")
 	}
-	e.assume(st, wf(kt, k))
-	e.assume(st, wf(vt, v))
+	e.assume(st, e.wf(kt, k))
+	e.assume(st, e.wf(vt, v))
 	e.assumeValAllocated(fr, st, vt, v)
 	tv.Elems = append(tv.Elems, k, v)
 	e.note("range over map: iteration order abstracted")
